@@ -8,13 +8,13 @@ def run(tier, seed):
     thorough = tier == 'thorough'
     cases = [Case('errors', 'crypto', 'zzC03_errors', [])]
     def enc(ks):
-        return sum(k * 10 ** i for i, k in enumerate(ks))
+        return sum(k * 16 ** i for i, k in enumerate(ks))
     seen = set()
     def add(ks):
         if tuple(ks) in seen:
             return
         seen.add(tuple(ks))
-        cases.append(Case('batch_' + ''.join(str(k) for k in ks), 'crypto', 'zzC03_batch', [len(ks), enc(ks)]))
+        cases.append(Case('batch_' + ''.join('%x' % k for k in ks), 'crypto', 'zzC03_batch', [len(ks), enc(ks)]))
     nmax = 5 if thorough else 4
     for n in range(1, nmax + 1):
         # every subset of invalid positions with the "independent error" kind
@@ -23,14 +23,14 @@ def run(tier, seed):
                 add(list(bits))
         # every kind at every position among valid entries
         for pos in range(n):
-            for k in (2, 3, 4, 5, 8, 9):
+            for k in (2, 3, 4, 5, 8, 9, 10):
                 ks = [0] * n
                 ks[pos] = k
                 add(ks)
         # a special kind (non-G1, malformed, short, too long with a valid prefix, identity key) next to an in-G1 invalid entry: the top-down
         # search descends to the special leaf (its subtree is invalid), which must keep its pre-marked verdict
         for i, j in itertools.permutations(range(n), 2):
-            for k in ((2, 3, 4, 5, 8, 9) if (thorough or n <= 3) else (3, 8)):
+            for k in ((2, 3, 4, 5, 8, 9, 10) if (thorough or n <= 3) else (3, 8, 10)):
                 ks = [0] * n
                 ks[i], ks[j] = 1, k
                 add(ks)
